@@ -162,6 +162,8 @@ def coq_build(ctx):
         res["log"] = log
         for m in re.finditer(r'File "\./([^"]+)", line (\d+), characters [\d-]+:\n(Error:.*?)(?=\n(?:make|File|COQ)|\Z)', log, re.S):
             res["errors"].append((m.group(1), int(m.group(2)), " ".join(m.group(3).split())[:300]))
+        # authoritative list of targets whose compilation failed in THIS build
+        res["failed_targets"] = sorted(set(re.findall(r"\*\*\* \[Makefile[^\]]*?:\s*([\w/.]+)\.vo\] Error", log)))
         res["assumptions"] = parse_assumptions(log)
         if not res["errors"]:
             r2 = subprocess.run([os.path.join(VERIF, "tools", "ocamlbuild.sh")], capture_output=True, text=True)
@@ -213,12 +215,24 @@ def obligations(ctx, files):
     need = sorted(x for x in need if os.path.exists(os.path.join(COQ, x)))
     failing = []
     errfiles = {e[0]: e for e in res["errors"]}
+    failed = set(x + ".v" for x in res.get("failed_targets", [])) | set(errfiles)
+    # a file is not checked if it failed itself or (transitively) depends on a file that failed
+    memo = {}
+
+    def broken(v):
+        if v in memo:
+            return memo[v]
+        memo[v] = False
+        r = v in failed or not os.path.exists(os.path.join(COQ, v[:-2] + ".vo")) or any(
+            broken(d) for d in deps.get(v + "o", []) if not d.startswith("/") and os.path.exists(os.path.join(COQ, d)))
+        memo[v] = r
+        return r
     thm_count = 0
     for v in need:
         txt = open(os.path.join(COQ, v)).read()
         n = len(re.findall(r"^\s*(?:Theorem|Lemma|Corollary|Example|Fact)\s+\w+", txt, re.M))
         thm_count += n
-        if v in errfiles or not vo_ok(v):
+        if broken(v):
             e = errfiles.get(v)
             failing.append({"file": v, "line": e[1] if e else None, "error": e[2] if e else "not built (a dependency failed)",
                             "theorems_in_file": n})
